@@ -105,9 +105,16 @@ class LoopGen(F.Gen):
             return super().stmt(0)
         v = free[0]
         st = rng.choice(self.STEPS)
-        for _ in range(40):
+        want_trunc = self.family == 'split-steptrunc' and not self.active_loops
+        if want_trunc:
+            st = rng.choice([2, 3, -2, -3])
+        for _ in range(200 if want_trunc else 40):
             lo, hi = rng.randint(-2, 5), rng.randint(-3, 6)
             vals = do_values(lo, hi, st)
+            # zero-trip loop whose (stop - start) / step truncates to 0: LoopRange.num_iterations says 1
+            trunc = st is not None and not vals and abs(hi - lo) < abs(st)
+            if (self.family == 'split' and trunc) or (want_trunc and not trunc):
+                continue
             if self.family == 'unroll-negpow' and not (vals and min(vals) < 0):
                 continue
             if self.zero_trip_wanted and vals:
@@ -182,17 +189,18 @@ def gen_general(rng, family, quickness=1):
              'unroll-exitcycle': ('exitcycle', 'twod'),
              'unroll-loopvar': ('twod',),
              'unroll-print': ('twod',),
-             'split': ('call', 'twod', 'select', 'while')}[family]
-    pragma = 'driver-loop' if family == 'split' else 'loop-unroll'
+             'split': ('call', 'twod', 'select', 'while'),
+             'split-steptrunc': ('twod',)}[family]
+    pragma = 'driver-loop' if family.startswith('split') else 'loop-unroll'
     for _ in range(50):
-        g = LoopGen(rng, feats, family=family, pragma=pragma, p_const=0.5 if family != 'split' else 0.35)
+        g = LoopGen(rng, feats, family=family, pragma=pragma, p_const=0.35 if family == 'split' else 0.5)
         prog = g.program(nstmts=rng.randint(3, 6), depth=3 if rng.random() < 0.4 else 2)
         if has_pragma(prog, pragma):
             break
     else:
         raise MachineryError(f'generator: no {pragma} pragma generated for {family}')
     prog['meta'] = {'family': family}
-    if family == 'split':
+    if family.startswith('split'):
         prog['meta']['block_size'] = rng.choice([1, 2, 3, 5])
     return prog, g.inputs(prog, 3)
 
@@ -577,7 +585,7 @@ def gen_nest(rng, family):
     return prog, g.inputs(prog, 3)
 
 
-C31_GENERAL = ('unroll', 'unroll-select', 'unroll-negpow', 'unroll-exitcycle', 'unroll-loopvar', 'unroll-print', 'split')
+C31_GENERAL = ('unroll', 'unroll-select', 'unroll-negpow', 'unroll-exitcycle', 'unroll-loopvar', 'unroll-print', 'split', 'split-steptrunc')
 C31_NEST = ('fusion', 'fusion-mismatch', 'fusion-collapse', 'fission', 'fission-autopromote', 'fission-promote', 'fission-promote-lb',
             'interchange', 'interchange-project', 'block')
 
@@ -620,7 +628,7 @@ def transform_c31(text, prog, workdir):
             do_loop_fission(routine, promote=bool(meta.get('auto', 1)), warn_loop_carries=True)
         elif fam.startswith('interchange'):
             do_loop_interchange(routine, project_bounds=bool(meta.get('project')))
-        elif fam in ('split', 'block'):
+        elif fam in ('split', 'split-steptrunc', 'block'):
             with pragmas_attached(routine, ir.Loop):
                 loops = [l for l in FindNodes(ir.Loop).visit(routine.body)
                          if is_loki_pragma(l.pragma, starts_with='driver-loop')]
